@@ -3,7 +3,7 @@ package main
 // C07 — batch insertion is all-or-nothing (DESIGN 4/C07).
 
 func init() {
-	drivers["C07"] = &driver{cases: tierN(400, 8000), run: runC07}
+	drivers["C07"] = &driver{cases: tierN(400, 40000), run: runC07}
 }
 
 func runC07(k int, rng *Rng) CaseResult {
